@@ -1,2 +1,34 @@
-(* C12 -- placeholder *)
-Theorem C12_placeholder : True. Proof. exact I. Qed.
+(* C12 -- close() is atomic with respect to other threads' sends and closes.  Statements only.
+   The model (Model.Conc) runs any number of threads, each performing any list of calls -- sends, close(), the event
+   loop processing a server Close, on_disconnect() -- one shared-state action at a time under an arbitrary schedule. *)
+From Coq Require Import List.
+From Model Require Import Conc.
+From Proofs Require Import ConcFacts.
+Import ListNotations.
+
+(* for every set of programs and every schedule: at most one Close frame is ever started on the wire *)
+Theorem C12_at_most_one_close : forall progs sched,
+  closes (s_wire (fst (exec (init_shared, map mk_thread progs) sched))) <= 1.
+Proof. exact at_most_one_close. Qed.
+Print Assumptions C12_at_most_one_close.
+
+(* ... and no frame of any kind (data or control) is started after it: s_wire is most recent first, so in
+   a ++ x :: b the parts b were written before x; if x starts a frame there is no Close among them *)
+Theorem C12_nothing_after_close : forall progs sched a x b,
+  s_wire (fst (exec (init_shared, map mk_thread progs) sched)) = a ++ x :: b -> is_p1 x = true -> closes b = 0.
+Proof. exact no_frame_after_close. Qed.
+Print Assumptions C12_nothing_after_close.
+
+(* the invariant behind both, preserved by every step of every thread *)
+Theorem C12_invariant : forall st t, sys_inv st -> sys_inv (sched_step st t).
+Proof. exact sched_step_inv. Qed.
+Print Assumptions C12_invariant.
+
+(* the schedule that broke the unrepaired code is a schedule of this model: close() on thread 0, then send_text on
+   thread 1 racing with the event loop completing the handshake on thread 2 *)
+Example C12_nonvacuous :
+  let st := exec (init_shared, map mk_thread [[KClose 5]; [KSend true false 1]; [KServerClose]])
+                 [0;0;0;0;0;0;0;0;0;0;0; 1;1; 2;2;2;2;2;2; 1;1;1;1] in
+  closes (s_wire (fst st)) = 1 /\ length (s_wire (fst st)) = 2 /\
+  map th_results (snd st) = [[(KClose 5, None)]; [(KSend true false 1, Some EClosing)]; [(KServerClose, None)]].
+Proof. vm_compute. repeat split; reflexivity. Qed.
